@@ -28,7 +28,9 @@ RULE = (
     "resume then train then save, resume then re-save, stale step_N.tmp, orphan step_N, stale latest.tmp, crashed first "
     "save); for each, EVERY successful file-system call of the final process is a crash point (kill on entry via strace "
     "inject), plus prefixes of the file in flight. One evaluation = one (history, crash point[, cut]) compared with the "
-    "model (run directory + resume outcome), or one mode round trip / window step. Non-trivial = a crash point after the "
+    "model (run directory + how a fresh run starts) under one of the three resume configurations the code distinguishes "
+    "(load_model unset / a model-only directory / a full snapshot of another run with opt.pt), ALL four restored components "
+    "compared bit-exactly; or one mode round trip / window step. Non-trivial = a crash point after the "
     "first operation, a mode switch that changed bits, a window push that evicted."
 )
 TRUSTED = [
@@ -38,7 +40,7 @@ TRUSTED = [
 ]
 ASSUMPTIONS = [
     "no power-loss reordering (no fsync is claimed); one trainer process per run directory at a time",
-    "config.run_dir set and config.load_model unset (the resume path of a training run)",
+    "config.run_dir set; config.load_model unset, a complete model-only directory, or a complete snapshot of another run",
 ]
 
 # ---------------------------------------------------------------------------------------------
@@ -172,7 +174,10 @@ class Lab:
         self.n = 0
         self.catalogue = {}  # (params, opt, replay, counters) digests -> "id:step"
         self.components = {}  # (component, digest) -> {state ids}
+        self.components_of_lm = None
+        self.names = {}  # "id:step" -> digests, to notice a state that is not reproducible
         self.config_digest = None
+        self.lm = {"unset": None, "model": None, "full": None}  # config.load_model per configuration
         self.bad_reference = []  # an uninterrupted first save into an empty directory did not round-trip
 
     def close(self):
@@ -201,25 +206,56 @@ class Lab:
     # -- what the processes reported -------------------------------------------------------
     def register(self, sid, fp):
         key = (fp["params"], fp["opt"], fp["replay"], fp["counters"])
-        self.catalogue[key] = "%d:%d" % (sid, fp["step"])
+        name = "%d:%d" % (sid, fp["step"])
+        other = self.names.get(name)
+        if other is not None and other != key:
+            # the machinery, not the implementation: scripted states must be reproducible
+            raise RuntimeError("state %s is not the same in two processes of this run (%s vs %s)" % (name, other, key))
+        self.names[name] = key
+        self.catalogue[key] = name
         for comp in ("params", "opt", "replay", "counters"):
             self.components.setdefault((comp, fp[comp]), set()).add(sid)
 
-    def classify(self, res):
-        kind, detail = res
-        if kind == "fresh":
-            return "fresh", None
+    LM_SID = 900  # the state held by the `load_model` directories
+
+    def classify(self, res, cfg="unset"):
+        """what a fresh run got from `load_or_init_model`, named by comparing ALL FOUR restored
+        components bit-exactly with what some process reported having held:
+        fresh | warm:model | warm:full | loaded:<id>:<step> | error |
+        loaded:mixed (a combination of complete components that was never saved together) |
+        loaded:partial (a component nobody ever held: partial data was accepted)"""
+        kind, detail = res[0], res[1]
+        base = res[2] if len(res) > 2 else None
         if kind == "error":
             return "error", detail
         key = (detail["params"], detail["opt"], detail["replay"], detail["counters"])
-        if key in self.catalogue:
+        untouched = base is not None and (detail["opt"], detail["replay"], detail["counters"]) == (
+            base["opt"],
+            base["replay"],
+            base["counters"],
+        )
+        if kind == "fresh" and (untouched or base is None):
+            return "fresh", None
+        if kind != "fresh" and key in self.catalogue:
             return "loaded:" + self.catalogue[key], None
-        # a state that no process ever held: partial data was accepted
-        parts = []
+        lm = self.components_of_lm
+        if kind != "fresh" and base is not None and lm and detail["params"] == lm["params"]:
+            if (detail["replay"], detail["counters"]) == (base["replay"], base["counters"]):
+                if detail["opt"] == base["opt"]:
+                    return "warm:model", None
+                if detail["opt"] == lm["opt"]:
+                    return "warm:full", None
+        parts, known = [], True
         for i, comp in enumerate(("params", "opt", "replay", "counters")):
-            owners = sorted({v for k, v in self.catalogue.items() if k[i] == key[i]})
+            owners = sorted("%d" % x for x in self.components.get((comp, key[i]), ()))
+            if base is not None and comp != "params" and key[i] == base[comp]:
+                owners.append("new")
+            if kind == "fresh" and comp == "params":
+                owners.append("init_weights")
+            if not owners:
+                known = False
             parts.append("%s=%s" % (comp, "|".join(owners) if owners else "?"))
-        return "loaded:mixed", ",".join(parts)
+        return ("loaded:mixed" if known else "loaded:partial"), ",".join(parts)
 
     COMPONENT = {"model.pt": "params", "opt.pt": "opt", "replay_buffer.pt": "replay", "elapsed.yaml": "counters"}
 
@@ -276,6 +312,19 @@ def reference_states(lab, hists):
             for a in p["actions"]:
                 if a[0] == "init":
                     todo[(int(a[1]), int(a[2]))] = 1
+    if lab.lm["full"] is None:
+        d = lab.fresh("lmrun")
+        os.makedirs(d)
+        mdir = lab.fresh("lmmodel")
+        r = lab.pool.run(lab.spec(d, [["init", lab.LM_SID, 2], ["save_model", mdir], ["hook", "after_run", 1]]))
+        if proc_failure(r):
+            raise RuntimeError("could not stage the load_model directories: " + proc_failure(r))
+        fp = r["out"]["actions"][0]["fp"]
+        lab.register(lab.LM_SID, fp)
+        lab.components_of_lm = fp
+        lab.lm.update(model=mdir, full=os.path.join(d, "step_000002"))
+        if sorted(os.listdir(mdir)) != ["config.yaml", "model.pt"] or not os.path.isfile(os.path.join(lab.lm["full"], "opt.pt")):
+            raise RuntimeError("load_model directories are not what they are meant to be")
     specs = []
     for sid, step in sorted(todo):
         d = lab.fresh("ref")
@@ -288,7 +337,7 @@ def reference_states(lab, hists):
     # the reference files are what they are taken for only if a fresh process resumes that state
     dirs = [s["run_dir"] for s in specs]
     for (sid, step), d, r in zip(sorted(todo), dirs, lab.pool.map([{"mode": "resume", "dirs": [d]} for d in dirs])):
-        oc, _ = lab.classify(r["out"]["resume"][d]) if r["out"] else ("error", None)
+        oc, _ = lab.classify(r["out"]["resume"][d]["unset"]) if r["out"] else ("error", None)
         if oc == "loaded:%d:%d" % (sid, step):
             lab.config_digest = r["out"]["files"][d].get("step_%06d/config.yaml" % step, lab.config_digest)
         else:  # shows up as `roundtrip-mismatch` at the end of the histories that save this state
@@ -479,14 +528,16 @@ def run_history(lab, hist, only=None):
     if only is not None and only[1] is not None:
         dirs = [x for x in dirs if x[1] == only[1]]
     # the real resume logic, one new process per directory
-    rspecs = [{"mode": "resume", "dirs": [d]} for (_, _, d) in dirs]
+    configs = [{"name": n, "load_model": lab.lm[n]} for n in CONFIGS]
+    rspecs = [{"mode": "resume", "dirs": [d], "configs": configs} for (_, _, d) in dirs]
     classified = []
     for (j, cut, d), r in zip(dirs, lab.pool.map(rspecs)):
         if r["code"] != 0 or not r["out"]:
             raise RuntimeError("resume process failed: %s" % open(r["spec"]["log"]).read()[-1500:])
-        oc, detail = lab.classify(r["out"]["resume"][d])
-        classified.append((j, cut, d, oc, detail, r["out"]["files"][d]))
-    for j, cut, d, oc, detail, digests in classified:
+        per = {n: lab.classify(r["out"]["resume"][d][n], n) for n in CONFIGS}
+        oc, detail = per["unset"]
+        classified.append((j, cut, d, oc, detail, r["out"]["files"][d], per))
+    for j, cut, d, oc, detail, digests, per in classified:
         hr.points.append(
             {
                 "j": j,
@@ -495,21 +546,29 @@ def run_history(lab, hist, only=None):
                 "fs": snap_trace.fs_text(d, lab.tagger(digests)),
                 "outcome": oc,
                 "detail": detail,
+                "starts": per,  # load_model configuration -> (start, detail)
                 "at": (describe(steps[j].sys, base) if j < len(steps) else "end"),
             }
         )
     return hr
 
 
+CONFIGS = ("unset", "model", "full")  # config.load_model: unset / model-only directory / full snapshot
+
+
 def canon_outcome(oc):
-    """`loaded:mixed` = partial data accepted silently; like a loud error it means `latest`
-    designated a partial snapshot"""
-    return "error" if oc == "loaded:mixed" else oc
+    """`loaded:partial` = partial data accepted silently; like a loud error it means `latest`
+    designated a partial snapshot.  (`loaded:mixed` = complete components that were never saved
+    together: the wrong state, not a partial one.)"""
+    return "error" if oc == "loaded:partial" else oc
 
 
 def compare_with_model(ctx, hr, divs):
-    lines = ["snapshot ops " + hr.script, "snapshot predict " + hr.script, "snapshot fsafter " + hr.script]
-    ops_l, pred_l, fs_l = driver.run_lines(lines)
+    lines = ["snapshot ops " + hr.script, "snapshot fsafter " + hr.script]
+    lines += ["snapshot predict " + hr.script.replace("repaired", "repaired lm=" + n, 1) for n in CONFIGS]
+    outs = driver.run_lines(lines)
+    ops_l, fs_l = outs[0], outs[1]
+    preds = {n: o.split(" ") for n, o in zip(CONFIGS, outs[2:])}
     m = re.match(r"n=(\d+) marks=(\S*) ops=(.*)$", ops_l)
     if not m:
         divs.append(Divergence("corr.snapshot:script", {"history": hr.name, "script": hr.script}, "-", ops_l))
@@ -534,24 +593,26 @@ def compare_with_model(ctx, hr, divs):
             if p["j"] > 0:
                 ctx.nontrivial("%s|%s|%s" % (hr.name, p["j"], p["trunc"]))
         return False
-    pred = pred_l.split(" ")
     fss = fs_l.split(" ")
     for p in hr.points:
-        ctx.evaluated()
-        if p["j"] > 0:
-            ctx.nontrivial("%s|%s|%s" % (hr.name, p["j"], p["trunc"]))
-        mo, mf = pred[p["e"]], snap_trace.canon_model_fs(fss[p["e"]])
-        io = canon_outcome(p["outcome"])
-        ctx.count("outcome:" + io.split(":")[0])
-        if io != mo or p["fs"] != mf:
-            divs.append(
-                Divergence(
-                    "corr.snapshot:crash",
-                    {"history": hr.name, "crash": p["j"], "trunc": p["trunc"], "at": p["at"]},
-                    "%s | %s" % (p["outcome"], p["fs"]),
-                    "%s | %s" % (mo, mf),
+        mf = snap_trace.canon_model_fs(fss[p["e"]])
+        for n in CONFIGS:
+            ctx.evaluated()
+            if p["j"] > 0:
+                ctx.nontrivial("%s|%s|%s|%s" % (hr.name, p["j"], p["trunc"], n))
+            mo = preds[n][p["e"]]
+            start, detail = p["starts"][n]
+            io = canon_outcome(start)
+            ctx.count("start[load_model=%s]:%s" % (n, io.split(":")[0] if io.startswith("loaded") else io))
+            if io != mo or (n == "unset" and p["fs"] != mf):
+                divs.append(
+                    Divergence(
+                        "corr.snapshot:crash",
+                        {"history": hr.name, "crash": p["j"], "trunc": p["trunc"], "at": p["at"], "load_model": n},
+                        "%s%s | %s" % (start, (" (%s)" % detail) if detail else "", p["fs"]),
+                        "%s | %s" % (mo, mf),
+                    )
                 )
-            )
     return True
 
 
@@ -563,45 +624,50 @@ def where_text(hr, p):
 
 
 def verdicts(hr):
-    """the property on the OBSERVED outcomes, evaluated by the driver.  -> [(key, point, text)]"""
+    """the property on the OBSERVED starts, under every `load_model` configuration, evaluated by
+    the driver.  -> [(key, point, text)]"""
     by_j = {}
     for p in hr.points:
         if p["trunc"] is None:
             by_j[p["j"]] = p
-    rngs = [r for r in hr.ranges]
-    # hook calls that issued no call at all (not due, or the snapshot is live and nothing to do)
-    active = [(i, r) for i, r in enumerate(rngs) if r is not None]
+    # hook calls that issued no call at all (not due) have no range
+    active = [(i, r) for i, r in enumerate(hr.ranges) if r is not None]
     lines, meta = [], []
-    for p in hr.points:
-        j = p["j"]
-        own = [(i, r) for i, r in active if r[0] <= j < r[1]]
-        if own:
-            i, (a, b) = own[0]
-            prev = by_j.get(a)
-            if prev is None:
-                continue
-            trig, sid, step = hr.hooks[i]
-            lines.append(
-                "snapshot verdict %s %d %d 0 %s" % (canon_outcome(prev["outcome"]), sid, step, canon_outcome(p["outcome"]))
-            )
-            meta.append((p, "inside hook call %d (%s of state %d at step %d)" % (i, trig, sid, step), prev["outcome"]))
-        # the state right after a hook call ran to its end
-        for i, (a, b) in active:
-            if j == b and p["trunc"] is None:
+    for n in CONFIGS:
+        for p in hr.points:
+            j = p["j"]
+            obs, detail = p["starts"][n]
+            cases = []
+            own = [(i, r) for i, r in active if r[0] <= j < r[1]]
+            if own:
+                cases.append((own[0][0], own[0][1][0], 0))
+            if p["trunc"] is None:
+                cases += [(i, a, 1) for i, (a, b) in active if j == b]
+            for i, a, done in cases:
                 prev = by_j.get(a)
                 if prev is None:
                     continue
                 trig, sid, step = hr.hooks[i]
                 lines.append(
-                    "snapshot verdict %s %d %d 1 %s"
-                    % (canon_outcome(prev["outcome"]), sid, step, canon_outcome(p["outcome"]))
+                    "snapshot verdict %s %d %d %d %s"
+                    % (canon_outcome(prev["starts"][n][0]), sid, step, done, canon_outcome(obs))
                 )
-                meta.append((p, "after hook call %d (%s of state %d at step %d) completed" % (i, trig, sid, step), prev["outcome"]))
+                where = ("after hook call %d (%s of state %d at step %d) completed" if done else "inside hook call %d (%s of state %d at step %d)") % (i, trig, sid, step)
+                meta.append((p, n, where, prev["starts"][n][0], obs, detail))
     outs = driver.run_lines(lines)
     bad = []
-    for (p, where, prev), line, o in zip(meta, lines, outs):
+    for (p, n, where, prev, obs, detail), o in zip(meta, outs):
         if o != "ok":
-            bad.append((o, p, "%s: resume gives %s%s, before the call it gave %s" % (where, p["outcome"], (" (" + str(p["detail"]) + ")") if p["detail"] else "", prev)))
+            bad.append(
+                (
+                    o,
+                    p,
+                    "%s: a fresh run with load_model=%s gets %s%s, before the call it got %s"
+                    % (where, {"unset": "None", "model": "<model-only directory>", "full": "<full snapshot of another run>"}[n], obs, (" (" + str(detail) + ")") if detail else "", prev),
+                )
+            )
+    # the same failure under several configurations: report the plainest one first
+    bad.sort(key=lambda x: 0 if "load_model=None" in x[2] else 1)
     return bad
 
 
@@ -735,7 +801,7 @@ def observe_serve_precision(ctx, divs):
 
         with contextlib.redirect_stdout(io.StringIO()):
             hook.after_step(run.state)
-        run2, (kind, detail) = sc.resume_outcome(d, {"serve_dtype": "bfloat16"})
+        run2, (kind, detail, _) = sc.resume_outcome(d, {"serve_dtype": "bfloat16"})
         same = kind == "loaded" and sc.params_fp(run2.state.model.state_dict()) == seen["fp"]
         ctx.count("observation:snapshot-in-serve-precision" if not same else "observation:snapshot-in-train-precision")
         if not same:
@@ -816,15 +882,17 @@ def tie(ctx):
             try:
                 lab2 = Lab(ctx)
                 try:
-                    # (a cold interpreter need not produce bit-identical tensors to a warmed one, so this
-                    #  lab learns its own states; what is compared is outcome and directory listing)
+                    # (this lab learns its states from its own processes; what is compared is the
+                    #  outcome and the directory listing)
                     reference_states(lab2, [HISTORIES[1]])
                     hr = run_history(lab2, HISTORIES[1], only=(13, None))
                     for p in hr.points:
                         ref = [q for q in _RUNS[1].points if q["j"] == p["j"] and q["trunc"] is None]
                         ctx.evaluated()
                         if ref and (ref[0]["outcome"], ref[0]["fs"]) != (p["outcome"], p["fs"]):
-                            divs.append(Divergence("corr.snapshot:runner", {"history": HISTORIES[1]["name"], "crash": p["j"]}, str(p), str(ref[0])))
+                            # the two ways of RUNNING the processes disagree: the machinery's problem,
+                            # never reported as a finding about the implementation
+                            raise RuntimeError("fork server and one-interpreter-per-job disagree: %s vs %s" % (p, ref[0]))
                 finally:
                     lab2.close()
             finally:
